@@ -52,6 +52,45 @@ def main():
                 seq = (t.items if (src == "items-range" and not setlike) else t.keys)(km.k(lo), km.k(hi))
             outcomes, bad = [], None
             ever = set(job["keys"])          # every key that has ever been in the container
+            # ---- trace for the correspondence with Model/Iter.v (C iterators without bounds): the leaf
+            # store by object identity before every next(), and what the call did
+            trace = None
+            known = []                       # every bucket object ever seen on the chain (kept alive here)
+
+            def leaf_keys(b):
+                items = b.__getstate__()[0]
+                ks = items if setlike else items[0::2]
+                return [km.ik(k) for k in ks]
+
+            def observe():
+                b = t._firstbucket if kind in ("BTree", "TreeSet") else t
+                n = 0
+                while b is not None and n < 10000:
+                    if not any(b is x for x in known):
+                        known.append(b)
+                    b = b._next
+                    n += 1
+                i = 0
+                while i < len(known):        # buckets that left the chain may still point at others
+                    nb = known[i]._next
+                    if nb is not None and not any(nb is x for x in known):
+                        known.append(nb)
+                    i += 1
+                idx = lambda o: next(j for j, x in enumerate(known) if x is o)   # noqa
+                return [[j, leaf_keys(b), None if b._next is None else idx(b._next)] for j, b in enumerate(known)]
+            if impl == "C" and src in ("iter", "iteritems") and it is not None:
+                st0 = observe()
+                chain = []
+                b = t._firstbucket if kind in ("BTree", "TreeSet") else t
+                while b is not None:
+                    chain.append(b)
+                    b = b._next
+                if not chain or not len(t):
+                    trace = {"cur": None, "last": 0, "lastoff": 0, "steps": []}
+                else:
+                    li = next(j for j, x in enumerate(known) if x is chain[-1])
+                    trace = {"cur": next(j for j, x in enumerate(known) if x is chain[0]), "last": li,
+                             "lastoff": len(leaf_keys(chain[-1])) - 1, "steps": []}
 
             def is_entry(x):
                 """what a step hands out must be (made of) a key / value that was stored at some time"""
@@ -74,14 +113,26 @@ def main():
             for st in job["steps"]:
                 try:
                     if st[0] == "next":
+                        snap = observe() if trace is not None else None
                         try:
                             x = next(it)
                             outcomes.append("entry")
+                            if trace is not None:
+                                try:
+                                    trace["steps"].append([snap, "entry", km.ik(x[0] if (src == "iteritems" and not setlike) else x)])
+                                except Exception:  # noqa
+                                    trace["steps"].append([snap, "entry", None])
                             if not is_entry(x):
                                 bad = "next-yielded-something-that-never-was-an-entry:%r" % (x,)
                                 break
                         except StopIteration:
                             outcomes.append("stop")
+                            if trace is not None:
+                                trace["steps"].append([snap, "stop", None])
+                        except RuntimeError:
+                            if trace is not None:
+                                trace["steps"].append([snap, "runtime", None])
+                            raise
                     elif st[0] == "index":
                         x = seq[st[1]]
                         outcomes.append("entry")
@@ -145,7 +196,7 @@ def main():
                     bad = "unsound:" + str(e)[:50]
                 except Exception as e:  # noqa
                     bad = "final-raises-" + type(e).__name__
-        print(json.dumps({"id": job["id"], "outcomes": outcomes, "bad": bad})); sys.stdout.flush()
+        print(json.dumps({"id": job["id"], "outcomes": outcomes, "bad": bad, "trace": trace if bad is None else None})); sys.stdout.flush()
 
 
 main()
